@@ -69,6 +69,10 @@ type Env struct {
 	Namespace string
 	Decls     []*Decl
 	byName    map[string]*Decl
+	// raw manifest JSON appended to inputDataTypes / emitted as resources (the C02 resource corpus,
+	// c02corpus.go); not part of Decls, so the codec runners do not see these types
+	ExtraDataTypes []any
+	Resources      []any
 }
 
 func (e *Env) Find(n string) *Decl {
@@ -258,7 +262,10 @@ func (e *Env) Manifest(packageRoot string) []byte {
 			dts = append(dts, map[string]any{"standaloneUnion": base})
 		}
 	}
-	m := map[string]any{"packageRoot": packageRoot, "inputDataTypes": dts, "dependencyDataTypes": []any{}, "resources": []any{}}
+	dts = append(dts, e.ExtraDataTypes...)
+	resources := []any{}
+	resources = append(resources, e.Resources...)
+	m := map[string]any{"packageRoot": packageRoot, "inputDataTypes": dts, "dependencyDataTypes": []any{}, "resources": resources}
 	b, err := json.MarshalIndent(m, "", " ")
 	if err != nil {
 		panic(err)
